@@ -214,10 +214,12 @@ impl ProtocolRequestBuilder for crate::Request {
             })
             .collect();
 
-        let body = if self.is_empty() == Some(false) {
-            self.take_body().into_bytes().await?
-        } else {
+        // `is_empty` is `None` for a body whose length is not known in advance (a reader);
+        // such a body has to be read, only a body known to be empty can be skipped.
+        let body = if self.is_empty() == Some(true) {
             vec![]
+        } else {
+            self.take_body().into_bytes().await?
         };
 
         Ok(HttpRequest {
@@ -294,6 +296,18 @@ mod tests {
         let req = req.into_protocol_request().await.unwrap();
 
         assert_eq!(req.headers, vec![]);
+        assert_eq!(req.body, b"hello");
+    }
+
+    #[futures_test::test]
+    async fn protocol_request_has_a_body_of_unknown_length() {
+        let url = "https://example.com".parse().unwrap();
+        let mut req = crate::Request::new(http_types::Method::Post, url);
+        let reader = futures_util::io::Cursor::new(b"hello".to_vec());
+        req.set_body(http_types::Body::from_reader(reader, None));
+
+        let req = req.into_protocol_request().await.unwrap();
+
         assert_eq!(req.body, b"hello");
     }
 
